@@ -46,6 +46,10 @@ func embeddedRequest(t types.Type) *types.Named {
 }
 
 func runC20(w *World, r *Report) {
+	// "partitions already dropped being removed from lists" rests on the writer's drop bookkeeping: the drop time is
+	// recorded under the source names (C08-R4 / C09-R2) and the recovered tables are loaded into their own kind (C08-R7)
+	defer r.importRules(runC08, "C20-", map[string]bool{"C08-R4": true, "C08-R7": true})
+	defer r.importRules(runC09, "C20-", map[string]bool{"C09-R2": true})
 	r.Rule("C20-R1", "replication stamp reaches the request", "op functions: request.Base is the msgBase parameter (literal) or UpdateMsgBase(msg.Base, msgBase) dominates the call for pass-through requests; event functions: MsgBaseParam.Base.ReplicateInfo is apiEvent.ReplicateInfo; HandleOpMessagePack stamps IsReplicate=true and MsgTimestamp = EndPositions[last].Timestamp", 24)
 	r.Rule("C20-R2", "dispatch agreement by type", "MsgType_K -> f asserts *msgstream.TMsg embedding milvuspb.KRequest -> exactly one non-probe DataHandler method whose param embeds milvuspb.KRequest; Replicate<X> event -> DataHandler.<X>", 22)
 	r.Rule("C20-R3", "malformed packs rejected before dispatch", "empty pack, pack with != 1 message and unknown message type each return a non-nil error on a branch from which the dispatch call is unreachable", 3)
